@@ -486,3 +486,34 @@ Proof.
   exists (map (serve_call g) cs). split; [now apply stays_in_frame|].
   clear Hs. induction Hf as [|c cs Hc _ IH]; constructor; [now apply serve_call_well_formed | exact IH].
 Qed.
+
+(* ---------- pipelined clients ----------------------------------------------------- *)
+
+Lemma bursts_concat sizes cs : concat (bursts_of sizes cs) = cs.
+Proof.
+  revert cs. induction sizes as [|n t IH]; intros cs.
+  - destruct cs; [reflexivity|]. cbn [bursts_of concat]. apply app_nil_r.
+  - cbn [bursts_of concat]. rewrite IH. apply firstn_skipn.
+Qed.
+
+(* however the in-frame history is grouped into writes, the connection output is
+   the concatenation of what each group gets when it is the whole connection *)
+Lemma serve_flat_bursts g bs :
+  Forall (fun c => in_frame g c = true) (concat bs) ->
+  serve_flat current g (client_writes (concat bs))
+  = concat (map (fun b => serve_flat current g (client_writes b)) bs).
+Proof.
+  induction bs as [|b bs IH]; intros H; [reflexivity|].
+  cbn [concat map] in *. apply Forall_app in H as [Hb Hr].
+  rewrite client_writes_app, serve_flat_prefix by exact Hb.
+  rewrite IH by exact Hr. now rewrite stays_in_frame by exact Hb.
+Qed.
+
+Lemma pipelining_irrelevant g sizes cs :
+  forallb in_scope cs = true ->
+  serve_flat current g (client_writes cs)
+  = concat (map (fun b => serve_flat current g (client_writes b)) (bursts_of sizes cs)).
+Proof.
+  intros H. rewrite <- (bursts_concat sizes cs) at 1. apply serve_flat_bursts.
+  rewrite bursts_concat. now apply scope_forall.
+Qed.
